@@ -1079,8 +1079,311 @@ fn run_source(w: &World, src: &str, verbose: bool, out: &mut Out, hist: &mut His
                 }
             }
             run_tree(w, &x, Some(src), out, hist);
+            // the hypotheses of the theorems (well-formed, admissible operand kinds) are claimed of every
+            // tree the type checker emits; the model evaluates them
+            out.case(&format!("C13.hyp\t{}\tsrc:{}", show_x(&x), src), "wf=1 kinds=1", "ok");
         }
     }
+}
+
+// ------------------------------------------------------------------------------------------
+// positions that demand a constant
+// ------------------------------------------------------------------------------------------
+pub const POSITIONS: &[&str] = &["array", "enum", "enumnext", "case", "template", "constint", "constuint", "numthreads", "assert"];
+
+fn err_kind(e: &str) -> String {
+    // "reject:type:<text>" -> a short stable label
+    let t = e.splitn(3, ':').nth(2).unwrap_or(e);
+    let t = t.split(": error: ").nth(1).unwrap_or(t);
+    let words: Vec<&str> = t.split_whitespace().take(5).collect();
+    words.join(" ").chars().filter(|c| c.is_ascii_alphabetic() || *c == ' ').collect()
+}
+
+/// integer view used to compare values observed at a position with the reference value
+fn as_integer(k: &K) -> Option<i128> {
+    match k {
+        K::Bool(b) => Some(*b as i128),
+        K::Lit(v) => Some(*v),
+        K::I32(v) => Some(*v as i128),
+        K::U32(v) => Some(*v as i128),
+        K::I64(v) => Some(*v as i128),
+        K::U64(v) => Some(*v as i128),
+        K::Enum(_, inner) => as_integer(inner),
+        _ => None,
+    }
+}
+
+/// place `src` in a constant-demanding position of a small program; observe what the compiler recorded
+fn observe_position(pos: &str, src: &str) -> Result<String, String> {
+    let text = match pos {
+        "array" => format!("{}float pa[{}];\n", PRELUDE, src),
+        "enum" => format!("{}enum PE {{ PV = {} }};\n", PRELUDE, src),
+        "enumnext" => format!("{}enum PE {{ PW = {}, PV }};\n", PRELUDE, src),
+        "case" => format!("{}void t() {{ switch (0) {{ case {}: break; }} }}\n", PRELUDE, src),
+        "template" => format!(
+            "{}template<uint N> uint tf() {{ return N; }}\nvoid t() {{ tf<{}>(); }}\n",
+            PRELUDE, src
+        ),
+        "constint" => format!("{}static const int pc = {};\n", PRELUDE, src),
+        "constuint" => format!("{}static const uint pc = {};\n", PRELUDE, src),
+        "numthreads" => format!(
+            "{}[numthreads({}, 1, 1)] void main() {{}}\nPipeline PP {{ ComputeShader = main; }}\n",
+            PRELUDE, src
+        ),
+        _ => return Err("SKIP:unknown position".into()),
+    };
+    let m = match guard(|| front_end_src(&text)) {
+        Ok(Ok(m)) => m,
+        Ok(Err(e)) => {
+            return Ok(format!("reject:{}", err_kind(&format!("reject:{}:{}", e.stage(), e.text()))));
+        }
+        Err(p) => return Ok(format!("panic:{}", p)),
+    };
+    Ok(match pos {
+        "array" => {
+            let g = m.global_registry.iter().find(|g| g.name.node == "pa");
+            match g.map(|g| m.type_registry.get_type_layer(m.type_registry.remove_modifier(g.type_id))) {
+                Some(ir::TypeLayer::Array(_, Some(n))) => format!("len:{}", n),
+                other => format!("shape:{:?}", other),
+            }
+        }
+        "enum" | "enumnext" => {
+            let mut r = "shape:no enum value".to_string();
+            for i in 0..m.enum_registry.get_enum_count() {
+                for vid in m.enum_registry.get_values(ir::EnumId(i)) {
+                    let v = m.enum_registry.get_enum_value(*vid);
+                    if v.name.node == "PV" {
+                        r = format!("val:{}", show_k(&k_of_const(&v.value)));
+                    }
+                }
+            }
+            r
+        }
+        "case" => {
+            let mut r = "shape:no case label".to_string();
+            for id in m.function_registry.iter() {
+                if m.function_registry.get_function_name(id) != "t" {
+                    continue;
+                }
+                if let Some(imp) = m.function_registry.get_function_implementation(id) {
+                    for st in &imp.scope_block.0 {
+                        if let ir::StatementKind::Switch(_, block) = &st.kind {
+                            for inner in &block.0 {
+                                if let ir::StatementKind::CaseLabel(c) = &inner.kind {
+                                    r = format!("val:{}", show_k(&k_of_const(c)));
+                                }
+                            }
+                        }
+                    }
+                }
+            }
+            r
+        }
+        "template" => {
+            let mut r = "shape:no instantiation".to_string();
+            for id in m.function_registry.iter() {
+                if let Some(data) = m.function_registry.get_template_instantiation_data(id) {
+                    if let Some(ir::TypeOrConstant::Constant(c)) = data.template_args.first() {
+                        r = format!("val:{}", show_k(&k_of_const(&c.clone().unrestrict())));
+                    }
+                }
+            }
+            r
+        }
+        "constint" | "constuint" => {
+            match m.global_registry.iter().find(|g| g.name.node == "pc") {
+                Some(g) => match &g.constexpr_value {
+                    Some(c) => format!("val:{}", show_k(&k_of_const(c))),
+                    None => "notconst".to_string(),
+                },
+                None => "shape:no global".to_string(),
+            }
+        }
+        "numthreads" => match m.pipelines.first().and_then(|p| p.stages.first()) {
+            Some(st) => match st.thread_group_size {
+                Some((x, _, _)) => format!("threads:{}", x),
+                None => "shape:no thread group size".to_string(),
+            },
+            None => "shape:no pipeline".to_string(),
+        },
+        _ => unreachable!(),
+    })
+}
+
+/// what the property requires at the position, given the reference value of the expression itself
+fn judge_position(pos: &str, want: &Want, obs: &str) -> String {
+    if obs.starts_with("panic:") {
+        return format!("FAIL:panic {}", &obs[6..]);
+    }
+    if obs.starts_with("shape:") {
+        return format!("SKIP:harness could not observe the position ({})", obs);
+    }
+    let rejected = obs.starts_with("reject:") || obs == "notconst";
+    let (val, soft) = match want {
+        Want::Val(k) => (k.clone(), false),
+        Want::ValOrNotConst(k) => (k.clone(), true),
+        Want::NotConst => {
+            return if rejected {
+                "ok".into()
+            } else {
+                format!("FAIL:{} accepted an expression that has no constant value: {}", pos, obs)
+            };
+        }
+        Want::Unspecified(_) => return "ok".into(),
+    };
+    let iv = as_integer(&val);
+    let observed_int = |prefix: &str| -> Option<i128> {
+        obs.strip_prefix(prefix)
+            .and_then(|r| if prefix == "val:" { parse_k(r).and_then(|k| as_integer(&k)) } else { r.parse().ok() })
+    };
+    let fail = |expected: String| format!("FAIL:{} recorded {} for an expression whose value is {} (expected {})", pos, obs, show_k(&val), expected);
+    match pos {
+        "array" | "numthreads" => {
+            let prefix = if pos == "array" { "len:" } else { "threads:" };
+            if pos == "numthreads" && matches!(val, K::Enum(_, _)) {
+                // whether an enum-typed thread count is admissible is a typing question
+                return "ok".into();
+            }
+            match iv {
+                None => "ok".into(), // non-integer sizes: typing question, not a value question
+                Some(v) => {
+                    let max = if pos == "array" { u64::MAX as i128 } else { u32::MAX as i128 };
+                    let min = if pos == "array" { 1 } else { 0 };
+                    if v >= min && v <= max {
+                        if rejected {
+                            if soft { "ok".into() } else { fail(format!("{}{}", prefix, v)) }
+                        } else if observed_int(prefix) == Some(v) {
+                            "ok".into()
+                        } else {
+                            fail(format!("{}{}", prefix, v))
+                        }
+                    } else if rejected {
+                        "ok".into()
+                    } else {
+                        fail("a rejection: the value is not a valid size".into())
+                    }
+                }
+            }
+        }
+        "enum" | "enumnext" | "case" | "template" => match iv {
+            None => "ok".into(),
+            Some(v) => {
+                // the enumerator after `= v` has the value v + 1
+                let v = if pos == "enumnext" { v + 1 } else { v };
+                if rejected {
+                    // an enum value must fit int or uint, a uint template parameter takes 32-bit values
+                    let representable = v >= i32::MIN as i128 && v <= u32::MAX as i128;
+                    if soft || !representable || pos == "template" { "ok".into() } else { fail(format!("val {}", v)) }
+                } else {
+                    match observed_int("val:") {
+                        Some(o) if o == v => "ok".into(),
+                        // a conversion to the 32-bit type of the position is the only other admissible value
+                        Some(o) if pos == "template" && (o - v).rem_euclid(1i128 << 32) == 0 => "ok".into(),
+                        _ => fail(format!("val {}", v)),
+                    }
+                }
+            }
+        },
+        "constint" | "constuint" => {
+            let t = if pos == "constint" { T::Int } else { T::UInt };
+            match cast_ref(&t, &val) {
+                Want::Val(k) => {
+                    if rejected {
+                        if soft || obs.starts_with("reject:") { "ok".into() } else { fail(show_k(&k)) }
+                    } else if obs == format!("val:{}", show_k(&k)) {
+                        "ok".into()
+                    } else {
+                        fail(show_k(&k))
+                    }
+                }
+                _ => "ok".into(),
+            }
+        }
+        _ => "ok".into(),
+    }
+}
+
+/// `assert_eval<T>(expr, expected)` acceptance: the expected operand is rendered from the reference value
+fn render_reference(k: &K) -> Option<(String, String)> {
+    // (type name, source text of a trivial expression with that value)
+    Some(match k {
+        K::Bool(b) => ("bool".into(), b.to_string()),
+        K::I32(v) => ("int".into(), format!("(int){}", v)),
+        K::U32(v) => ("uint".into(), format!("{}u", v)),
+        K::Enum(0, inner) => ("E0".into(), format!("(E0){}", as_integer(inner)?)),
+        K::Enum(1, inner) => ("E1".into(), format!("(E1){}u", as_integer(inner)?)),
+        K::F32(b) if f32::from_bits(*b).is_finite() && *b >> 31 == 0 => {
+            ("float".into(), format!("{:e}f", f32::from_bits(*b)))
+        }
+        K::F64(b) if f64::from_bits(*b).is_finite() && *b >> 63 == 0 => {
+            ("double".into(), format!("{:e}L", f64::from_bits(*b)))
+        }
+        _ => return None,
+    })
+}
+
+fn run_position(w: &World, pos: &str, src: &str, out: &mut Out, hist: &mut Hist) {
+    // reference value of the expression itself (through the type checker, standalone)
+    let (m, e) = match w.typed(src) {
+        Ok(x) => x,
+        Err(e) if e.starts_with("panic:") => {
+            out.case(&format!("C13.src\t{}", src), &format!("panic:{}", panic_msg(&e[6..])), &format!("FAIL:panic {}", &e[6..]));
+            return;
+        }
+        Err(_) => {
+            hist.add("position:expression-rejected");
+            return;
+        }
+    };
+    let x = x_of_expr(&m, &e);
+    let want = reference(&x);
+    let req = format!("C13.pos\t{}\t{}", pos, src);
+    if pos == "assert" {
+        let val = match &want {
+            Want::Val(k) => k.clone(),
+            _ => {
+                hist.add("assert:no-definite-value");
+                return;
+            }
+        };
+        let (ty, expected) = match render_reference(&val) {
+            Some(r) => r,
+            None => {
+                hist.add("assert:value-not-renderable");
+                return;
+            }
+        };
+        let text = format!("{}void t() {{ assert_eval<{}>({}, {}); }}\n", PRELUDE, ty, src, expected);
+        let obs = match guard(|| front_end_src(&text)) {
+            Ok(Ok(_)) => "accept".to_string(),
+            Ok(Err(e)) => format!("reject:{}", err_kind(&format!("reject:{}:{}", e.stage(), e.text()))),
+            Err(p) => format!("panic:{}", p),
+        };
+        let verdict = if obs == "accept" {
+            "ok".to_string()
+        } else if obs.starts_with("reject:expected type") {
+            // the rendered type name differs from the expression's type (const-qualified, literal): not a value question
+            "SKIP:type of the expression is not the rendered type".to_string()
+        } else if obs.starts_with("panic:") {
+            format!("FAIL:panic {}", &obs[6..])
+        } else {
+            format!("FAIL:assert_eval<{}>({}, {}) is rejected although {} is the value HLSL defines: {}", ty, src, expected, show_k(&val), obs)
+        };
+        hist.add(&format!("assert:{}", if obs == "accept" { "accept" } else { "other" }));
+        out.case(&format!("{}\t{}", req, expected), &obs, &verdict);
+        return;
+    }
+    let obs = match observe_position(pos, src) {
+        Ok(o) => o,
+        Err(e) => {
+            out.case(&req, "unobservable", &e);
+            return;
+        }
+    };
+    let verdict = judge_position(pos, &want, &obs);
+    hist.add(&format!("{}:{}", pos, obs.split(':').next().unwrap_or("")));
+    let shown = if obs.starts_with("panic:") { format!("panic:{}", panic_msg(&obs[6..])) } else { obs.clone() };
+    out.case(&req, &shown, &verdict);
 }
 
 // ------------------------------------------------------------------------------------------
@@ -1376,6 +1679,12 @@ pub fn run(args: &Args, out: &mut Out) {
             let f: Vec<&str> = line.split('\t').collect();
             match f.as_slice() {
                 ["C13.src", src] => run_source(&w, src, true, out, &mut hist),
+                ["C13.pos", pos, src, ..] => run_position(&w, pos, src, out, &mut hist),
+                ["C13.hyp", _tree, rest @ ..] => {
+                    if let Some(src) = rest.first().and_then(|s| s.strip_prefix("src:")) {
+                        run_source(&w, src, true, out, &mut hist)
+                    }
+                }
                 ["C13.eval", tree, rest @ ..] => match parse_x(tree) {
                     Some(x) => {
                         let src = rest.first().and_then(|s| s.strip_prefix("src:"));
@@ -1467,6 +1776,17 @@ pub fn run(args: &Args, out: &mut Out) {
         let src = src_tree(ty, d, &mut rng);
         run_source(&w, &src, false, out, &mut typed);
     }
+    // (5) the same kind of source expressions in every position that demands a constant
+    let mut posh = Hist::default();
+    for _ in 0..120 * scale {
+        let ty = *rng.pick(&["lit", "int", "uint", "bool", "E0", "E1", "lit", "int", "uint", "float", "double"]);
+        let d = rng.range(0, 4) as u32;
+        let src = src_tree(ty, d, &mut rng);
+        for pos in POSITIONS {
+            run_position(&w, pos, &src, out, &mut posh);
+        }
+    }
+    out.stat(&format!("{{\"positions\":{}}}", posh.json()));
     out.stat(&format!(
         "{{\"direct_ir\":{},\"arbitrary_ir\":{},\"through_type_checker\":{}}}",
         direct.json(),
